@@ -1,315 +1,184 @@
 """C12 - iterator bases and adaptors obey the bidirectional / random-access iterator laws.
 
+ 0. Type facts: TLC evaluates IterLawsTypes.tla (which expressions an iterator of each capability class
+    must offer and what their types are, from the C++14 iterator requirement tables); harness/iter/facts.cpp
+    observes them on the real iterator types with detection traits.  A missing `must` fact is a violation
+    (replay: a CompileProbe line); `cap` facts (default-constructible, traits of xvalue_iterator) only decide
+    which spec actions are exercised.  common_iterator_tag is checked the same way, advisory.
  1. TLC: IterLaws.tla (L1) - the law set of the property as invariants / action properties of the
     spec (exhaustive in bounds: sizes, strides, all position pairs, all offsets, all capability classes).
- 2. S->C: TLC enumerates every (capabilities, n, step, p, q, operation, argument) transition of L1;
-    each is replayed on EVERY real iterator kind of that capability class (bitset iterators for uint8 /
-    uint64 blocks and views, xoptional_vector/array and xcomplex_vector/array iterators incl. const and
-    reverse, xstepping_iterator over vector / const vector / pointer with stride 1..3, xkey_iterator /
-    xvalue_iterator over std::map, toy iterators on every flavour of the bases and of the size_t
-    extension).
- 3. C->S: seeded random walks (longer histories, larger containers and offsets) per kind.
+    IterLawsImpl.tla (L2, advisory) - the representations of the xtl iterators refine L1.
+ 2. S->C: TLC enumerates every (n, step, p, q, operation, argument) transition of L1 for the two maximal
+    capability classes; each is replayed on EVERY real iterator kind that has the operation (bitset iterators
+    for uint8 / uint64 blocks and views, xoptional_vector/array and xcomplex_vector/array iterators incl. const
+    and reverse, from mutable and from const containers, xstepping_iterator over vector / const vector / pointer
+    with stride 1..3, xkey_iterator / xvalue_iterator over std::map, std::reverse_iterator over the random-access
+    ones, toy iterators on every flavour of the bases and of the size_t extension).
+ 3. C->S: seeded random walks (longer histories, larger containers and offsets) per kind; in the thorough tier
+    also on a clang++ -O2 build.
  Every recorded event (result + container storage + both iterators seen through three observers)
  is validated by TLC against IterLawsTrace.tla (L1 is the oracle).
+
+ A driver group that does not build against the tree, a crash, a call that does not return and a pervasive
+ defect all end in exit 1 as long as there is a violation to report; exit 2 only when there is none.
 """
-import json, os, random, subprocess
+import json, os, random, re, subprocess, threading
 from concurrent.futures import ThreadPoolExecutor
 from vlib import core
 from vlib.core import MachineryError
+from vlib.iterlaws import (KINDS, GROUPS, ARRAY_GROUPS, VALUE_KINDS, FLAGS, CAP_BITS, CAP_ALL, ALL_ACTIONS, reset_event, ev,
+                           s2c_scripts, random_scripts, needs, flags_of)
 
-SRC = os.path.join(core.HARNESS, "iter", "driver.cpp")
-PROBE = os.path.join(core.HARNESS, "iter", "probe.cpp")
+HDIR = os.path.join(core.HARNESS, "iter")
+SRC = os.path.join(HDIR, "driver.cpp")
+PROBE = os.path.join(HDIR, "probe.cpp")
+FACTS = os.path.join(HDIR, "facts.cpp")
+COMMON = os.path.join(core.HARNESS, "common")
 
-# operator-> of xstepping_iterator over a class-type iterator does not compile on trees without
-# proposed fix C12-02.  The spec's Arrow action is enabled for every kind (DESIGN.md section 6, C12),
-# so this is reported as a violation; set to False to downgrade it to an advisory note.
-STEP_ARROW_IS_VERDICT = True
+MAX_RESTARTS = 5            # driver restarts per script after Crash events; then the rest of the script is dropped
+MAX_FILE_REJECTIONS = 2     # a trace file is not re-validated after its second rejection
+MAX_REPORT = 12             # violations reported (each re-executed and explained); more are only counted
+MAX_TYPE_REPORT = 6
 
-
-def K(group, ra, ext, mut, std, shape, steps=(1,), maxn=None, arrow=True):
-    return {"group": group, "ra": ra, "ext": ext, "mut": mut, "std": std, "shape": shape,
-            "steps": steps, "maxn": maxn, "arrow": arrow}
-
-
-# kind -> driver group, capability class (what the spec enables), element shape
-KINDS = {
-    "bit8_it":    K(0, True, False, True, True, "bit"),
-    "bit8_cit":   K(0, True, False, False, True, "bit"),
-    "bit8_rit":   K(0, True, False, True, True, "bit"),
-    "bit8_crit":  K(0, True, False, False, True, "bit"),
-    "bit64_it":   K(0, True, False, True, True, "bit"),
-    "bit64_cit":  K(0, True, False, False, True, "bit"),
-    "bitv8_it":   K(0, True, False, True, True, "bit"),
-    "bitv8_cit":  K(0, True, False, False, True, "bit"),
-    "optvec_it":   K(1, True, False, True, True, "opt"),
-    "optvec_cit":  K(1, True, False, False, True, "opt"),
-    "optvec_rit":  K(1, True, False, True, True, "opt"),
-    "optvec_crit": K(1, True, False, False, True, "opt"),
-    "cplxvec_it":   K(2, True, False, True, True, "cplx"),
-    "cplxvec_cit":  K(2, True, False, False, True, "cplx"),
-    "cplxvec_rit":  K(2, True, False, True, True, "cplx"),
-    "cplxvec_crit": K(2, True, False, False, True, "cplx"),
-    "step_vec":  K(3, True, False, True, True, "int", steps=(1, 2, 3)),
-    "step_cvec": K(3, True, False, False, True, "int", steps=(1, 2, 3)),
-    "step_ptr":  K(3, True, False, True, True, "int", steps=(1, 2, 3)),
-    "key_map":    K(3, False, False, False, True, "key"),
-    "value_map":  K(3, False, False, True, False, "int"),     # std: see probe PROBE_VALUE_TRAITS
-    "cvalue_map": K(3, False, False, False, False, "int"),
-    "toy_bi1": K(4, False, False, True, True, "int"),
-    "toy_bi2": K(4, False, False, True, True, "int"),
-    "toy_bi3": K(4, False, False, True, True, "int"),
-    "toy_ra1": K(4, True, False, True, True, "int"),
-    "toy_ra2": K(4, True, False, True, True, "int"),
-    "toy_ra3": K(4, True, False, True, True, "int"),
-    "toy_ext_int":  K(4, True, True, True, True, "int"),
-    "toy_ext_long": K(4, True, True, True, True, "int"),
-    "optarr_it":   K(5, True, False, True, True, "opt", maxn=6),
-    "optarr_cit":  K(6, True, False, False, True, "opt", maxn=6),
-    "optarr_rit":  K(7, True, False, True, True, "opt", maxn=6),
-    "cplxarr_it":  K(8, True, False, True, True, "cplx", maxn=6),
-    "cplxarr_cit": K(9, True, False, False, True, "cplx", maxn=6),
-    "cplxarr_rit": K(10, True, False, True, True, "cplx", maxn=6),
-}
-ARRAY_GROUPS = (5, 6, 7, 8, 9, 10)
-# quick tier: const / reverse / view twins of an iterator template already replayed in full get the
-# TLC transitions for n <= 3 only (thorough: everything, n <= 6)
-SECONDARY = {"bit8_cit", "bit8_crit", "bit64_it", "bitv8_it", "bitv8_cit", "optvec_cit", "optvec_rit",
-             "cplxvec_cit", "cplxvec_rit", "step_cvec", "cvalue_map", "optarr_cit", "optarr_rit", "cplxarr_it", "cplxarr_rit"}
-GROUPS = sorted(set(k["group"] for k in KINDS.values()))
-
-BITPAT = 0xB38F0F5C3A6D91E7C5A3F00FF0E1D2B4   # fixed pseudo-random bit pattern
+FLAVOURS = {"gcc": {"cxx": None, "flags": ["-O0", "-g0"], "asan": True},
+            # -O0 -g0: the driver is ~60 generic lambdas x one session per kind; unoptimised and without
+            # debug info it compiles three times faster (ASan stays on), its run time does not matter
+            "clang": {"cxx": "clang++", "flags": ["-O2", "-g0"], "asan": False}}
+TAG_TYPES = {"input": ["std::istream_iterator<int>", "std::istream_iterator<int>"],
+             "forward": ["std::forward_list<int>::iterator", "std::forward_list<int>::const_iterator"],
+             "bidirectional": ["std::list<int>::iterator", "xtl::xkey_iterator<imap>"],
+             "random_access": ["std::vector<int>::iterator", "xtl::xstepping_iterator<int*>", "xtl::xdynamic_bitset<std::uint8_t>::iterator",
+                               "xtl::xoptional_vector<int>::const_iterator"]}
+TAG_CPP = {"input": "std::input_iterator_tag", "forward": "std::forward_iterator_tag",
+           "bidirectional": "std::bidirectional_iterator_tag", "random_access": "std::random_access_iterator_tag"}
 
 
-def pat(j, salt=0):
-    return (BITPAT >> ((j * 7 + salt * 13) % 120)) & 1
+def ctype(kind):
+    return "k_%s%s" % (kind, "<3>" if KINDS[kind]["array"] else "")
 
 
-def elem(shape, j):
-    """Element stored at storage index j: reveals j (bit containers: a fixed pattern)."""
-    if shape == "bit":
-        return [pat(j)]
-    if shape == "opt":
-        return [10 + j, pat(j, 1)]
-    if shape == "cplx":
-        return [10 + j, 500 + 3 * j]
-    if shape == "key":
-        return [10 + 2 * j]            # keys of the map: must be increasing
-    return [10 + j]
+def compile_cmd(flavour, flags, src, out=None, syntax_only=False):
+    f = FLAVOURS[flavour]
+    cmd = [f["cxx"] or core.CXX] + core.BASE_FLAGS + (core.ASAN if f["asan"] else []) + ["-I", core.INCLUDE, "-I", COMMON, "-I", HDIR]
+    cmd += f["flags"] + list(flags)
+    if syntax_only:
+        return cmd + ["-fsyntax-only", src]
+    return cmd + [src, "-o", out]
 
 
-def wval(shape, cur, ctr):
-    """A value to write that differs from what is stored."""
-    if shape == "bit":
-        return [1 - cur[0]]
-    if shape == "opt":
-        return [1000 + ctr, 1 - cur[1]]
-    if shape == "cplx":
-        return [1000 + ctr, 2000 + ctr]
-    return [1000 + ctr]
+def first_errors(out, n=6):
+    e = [l for l in out.splitlines() if "error" in l]
+    return "\n".join(e[:n]) if e else out[-1500:]
 
 
-def cls(k):
-    return (k["ra"], k["ext"], k["mut"], k["std"])
-
-
-def reset_event(kind, n, step):
-    k = KINDS[kind]
-    return {"op": "Reset", "k": 1, "a": {"kind": kind, "n": n, "step": step,
-                                          "under": [elem(k["shape"], j) for j in range(n * step)],
-                                          "ra": k["ra"], "ext": k["ext"], "mut": k["mut"], "std": k["std"]}}
-
-
-def ev(op, w, **a):
-    return {"op": op, "k": w, "a": a or {"z": 0}}
-
-
-MOVERS = {"PreInc", "PostInc", "PreDec", "PostDec", "AddAssign", "SubAssign", "Assign", "StdAdvance"}
-WRITERS = {"Write", "IndexWrite"}
-
-
-# ------------------------------------------------------------- TLC -> scripts
-def emitted(out):
+# ------------------------------------------------------------- stage 0: type facts
+def emitted(out, tag="@E@"):
     res = []
     for line in out.splitlines():
-        if line.startswith('"@E@'):
-            res.append(json.loads(json.loads(line)[3:]))
+        if line.startswith('"' + tag):
+            res.append(json.loads(json.loads(line)[len(tag):]))
     return res
 
 
-def s2c_scripts(edges, rnd, skip, quick=False):
-    """For every kind: every TLC transition of the kind's capability class (and strides), grouped
-    by pre-state.  One execution per (kind, n, step); iterators are (re)seated by the harness's own
-    Seat step, rotating through the ways of getting there."""
-    by_class = {}
-    for e in edges:
-        c = e["c"]
-        by_class.setdefault((c["ra"], c["ext"], c["mut"], c["std"]), []).append(e)
-    scripts, taken = {}, 0
+def class_key(c):
+    return tuple(bool(c[f]) for f in FLAGS)
+
+
+def types_tables(ctx):
+    """TLC evaluates IterLawsTypes.tla: rows per capability class, common_iterator_tag rows."""
+    r = core.tlc(ctx, "IterLawsTypes", "IterLawsTypes.cfg", name="types-table", workers=1, timeout=300, heap="1g")
+    if r["rc"] != 0 or "Assumption" in r["out"] and "is false" in r["out"]:
+        raise MachineryError("IterLawsTypes.tla: a theorem of the tables fails (oracle bug), see %s" % r["outfile"])
+    rows = {class_key(x["c"]): {y["f"]: y["need"] for y in x["rows"]} for x in emitted(r["out"], "@T@")}
+    tags = emitted(r["out"], "@G@")
+    if len(rows) != 40 or len(tags) != 84:
+        raise MachineryError("IterLawsTypes.tla printed %d classes / %d tag rows (expected 40 / 84), see %s" % (len(rows), len(tags), r["outfile"]))
+    return rows, tags
+
+
+def build_facts(ctx, only=None, tagfile=None, name="facts"):
+    out = os.path.join(ctx.work, name)
+    flags = ["-O0", "-g0"]
+    if only is not None:
+        flags.append("-DC12_ONLY=%d" % only)
+    if tagfile:
+        flags.append('-DC12_TAG_ROWS_FILE="%s"' % tagfile)
+    cmd = [core.CXX] + core.BASE_FLAGS + ["-I", core.INCLUDE, "-I", COMMON, "-I", HDIR] + flags + [FACTS, "-o", out]
+    rc, o = core.sh(cmd, timeout=600)
+    if rc != 0:
+        if "error" not in o:
+            raise MachineryError("facts program failed to build without a compiler diagnostic:\n%s" % o[-2000:])
+        return None, o
+    rc, o2 = core.sh([out], timeout=60)
+    if rc != 0:
+        raise MachineryError("facts program failed (rc=%s): %s" % (rc, o2[-500:]))
+    return [json.loads(l) for l in o2.splitlines() if l.strip()], ""
+
+
+def observe_facts(ctx, tags):
+    """Facts of every kind.  Returns (facts per kind, broken kinds {kind: compiler output}, tag results, conversions)."""
+    tagfile = os.path.join(ctx.work, "tag_rows.inc")
+    with open(tagfile, "w") as f:
+        for i, t in enumerate(tags):
+            its = [TAG_TYPES[x][(i + j) % len(TAG_TYPES[x])] for j, x in enumerate(t["tags"])]
+            f.write("    tagrow<%s, %s>(%d);\n" % (TAG_CPP[t["common"]], ", ".join(its), i))
+            t["types"] = its
+    rows, out = build_facts(ctx, tagfile=tagfile)
+    facts, broken = {}, {}
+    if rows is None:
+        # some iterator type no longer instantiates: isolate it kind by kind (the tag table is advisory: dropped)
+        ctx.log("facts program does not compile against this tree; isolating the kinds")
+
+        def one(kind):
+            r, o = build_facts(ctx, only=KINDS[kind]["idx"], name="facts_" + kind)
+            return kind, r, o
+        with ThreadPoolExecutor(max_workers=core.NCPU) as ex:
+            for kind, r, o in ex.map(one, sorted(KINDS)):
+                if r is None:
+                    broken[kind] = o
+                else:
+                    facts[kind] = r[0]["facts"]
+        if not broken:
+            raise MachineryError("facts program does not compile although every kind does alone:\n%s" % out[-3000:])
+        return facts, broken, None, None
+    for r in rows:
+        if "kind" in r:
+            facts[r["kind"]] = r["facts"]
+    if set(facts) != set(KINDS):
+        raise MachineryError("facts.cpp and vlib/iterlaws.py disagree on the kinds: %s" % sorted(set(facts) ^ set(KINDS)))
+    tagres = {r["tagrow"]: r["ok"] for r in rows if "tagrow" in r}
+    conv = {r["conv"]: r["it_to_cit"] for r in rows if "conv" in r}
+    return facts, broken, tagres, conv
+
+
+def types_stage(ctx):
+    rows, tags = types_tables(ctx)
+    facts, broken, tagres, conv = observe_facts(ctx, tags)
+    # capabilities of the tree first: they decide the class of a kind
+    for kind, f in facts.items():
+        KINDS[kind]["dc"] = bool(f["default_constructible"])
+        if kind in VALUE_KINDS:
+            KINDS[kind]["std"] = bool(f["traits_bi"])
+    findings = []      # (kind, fact, text)
     for kind in sorted(KINDS):
-        k = KINDS[kind]
-        if (kind, "*") in skip:
+        if kind in broken:
+            findings.append((kind, "*", "iterator kind %s: the iterator type can no longer be instantiated / used in unevaluated "
+                             "expressions: %s" % (kind, first_errors(broken[kind], 3))))
             continue
-        vias = ["inc", "dec"] + (["add", "sub"] if k["ra"] else [])
-        lines = []
-        groups = {}
-        for e in by_class.get(cls(k), []):
-            p = e["p"]
-            if p["step"] not in k["steps"] or (k["maxn"] is not None and p["n"] > k["maxn"]):
-                continue
-            if (kind, e["l"]["op"]) in skip or (quick and kind in SECONDARY and p["n"] > 3):
-                continue
-            groups.setdefault((p["n"], p["step"]), {}).setdefault((p["p"], p["q"]), []).append(e["l"])
-        vi = rnd.randrange(len(vias))
-        for (n, step) in sorted(groups):
-            lines.append(reset_event(kind, n, step))
-            under = list(lines[-1]["a"]["under"])
-            ctr = 0
-            for (p, q) in sorted(groups[(n, step)]):
-                calls = groups[(n, step)][(p, q)]
-                calls.sort(key=lambda c: (c["op"] in MOVERS, c["op"]))     # observers and writers first
-                seat = True
-                for c in calls:
-                    if seat:
-                        lines.append(ev("Seat", 1, p=p, q=q, via=vias[vi % len(vias)]))
-                        vi += 1
-                    c = {"op": c["op"], "k": c["k"], "a": dict(c["a"])}
-                    if c["op"] in WRITERS:
-                        pos = (p if c["k"] == 1 else q) + (c["a"]["k"] if c["op"] == "IndexWrite" else 0)
-                        ctr += 1
-                        c["a"]["v"] = wval(k["shape"], under[pos * step], ctr)
-                        under[pos * step] = c["a"]["v"]
-                    lines.append(c)
-                    taken += 1
-                    seat = c["op"] in MOVERS
-        scripts[kind] = lines
-    return scripts, taken
-
-
-# ------------------------------------------------------------- random walks (C->S)
-class Walk:
-    """Seeded random call sequence for one kind.  Tracks only what it needs to stay inside the
-    C++ preconditions (positions, and stored values to choose visible writes); predicts nothing."""
-
-    def __init__(self, rnd, kind, n, step, skip):
-        self.r, self.kind, self.k, self.n, self.step = rnd, kind, KINDS[kind], n, step
-        self.pos = [0, 0]
-        self.skip = skip
-        self.ctr = 0
-        self.lines = [reset_event(kind, n, step)]
-        self.under = list(self.lines[0]["a"]["under"])
-
-    def off(self, lo, hi):
-        """an offset in [lo, hi], biased to the ends and small magnitudes"""
-        c = [lo, hi, 0, 1, -1, lo + 1, hi - 1]
-        c = [x for x in c if lo <= x <= hi]
-        return self.r.choice(c) if self.r.random() < 0.6 else self.r.randint(lo, hi)
-
-    def step_once(self):
-        r, k, n = self.r, self.k, self.n
-        for _ in range(100):
-            w = r.randrange(2)
-            p, o = self.pos[w], self.pos[1 - w]
-            ops = ["PreInc", "PostInc", "PreDec", "PostDec", "Deref", "Arrow", "Eq", "Ne", "Assign", "Trav", "Seat"]
-            if k["ra"]:
-                ops += ["AddAssign", "SubAssign", "Plus", "PlusLeft", "Minus", "Index", "Diff", "Lt", "Le", "Gt", "Ge"] * 2
-            if k["ext"]:
-                ops += ["PlusU", "PlusLeftU", "MinusU", "IndexU"] * 2
-            if k["std"]:
-                ops += ["StdAdvance", "StdDistance", "StdNext", "StdPrev"]
-            if k["mut"]:
-                ops += ["Write"] + (["IndexWrite"] if k["ra"] else [])
-            op = r.choice(ops)
-            if (self.kind, op) in self.skip:
-                continue
-            if op in ("PreInc", "PostInc"):
-                if p >= n: continue
-                self.pos[w] += 1
-                return ev(op, w + 1)
-            if op in ("PreDec", "PostDec"):
-                if p <= 0: continue
-                self.pos[w] -= 1
-                return ev(op, w + 1)
-            if op in ("Deref", "Arrow"):
-                if p >= n: continue
-                return ev(op, w + 1)
-            if op in ("Eq", "Ne", "Diff", "Lt", "Le", "Gt", "Ge"):
-                return ev(op, w + 1)
-            if op == "Assign":
-                self.pos[w] = o
-                return ev(op, w + 1)
-            if op == "Trav":
-                if r.random() < 0.5:
-                    return ev("TraverseForward", 1, how=r.choice(["pre", "post"] + (["lt", "index", "plus"] if k["ra"] else [])))
-                return ev("TraverseReverse", 1, how=r.choice(["pre", "post"] + (["gt", "minus"] if k["ra"] else [])))
-            if op == "Seat":
-                if r.random() < 0.7: continue
-                a, b = r.randint(0, n), r.choice([0, n, r.randint(0, n)])
-                self.pos = [a, b]
-                return ev("Seat", 1, p=a, q=b, via=r.choice(["inc", "dec"] + (["add", "sub"] if k["ra"] else [])))
-            if op in ("AddAssign", "Plus", "PlusLeft", "StdAdvance", "StdNext"):
-                d = self.off(-p, n - p)
-                if op in ("AddAssign", "StdAdvance"): self.pos[w] = p + d
-                return ev(op, w + 1, k=d)
-            if op in ("SubAssign", "Minus", "StdPrev"):
-                d = self.off(p - n, p)
-                if op == "SubAssign": self.pos[w] = p - d
-                return ev(op, w + 1, k=d)
-            if op in ("PlusU", "PlusLeftU"):
-                return ev(op, w + 1, k=self.off(0, n - p))
-            if op == "MinusU":
-                return ev(op, w + 1, k=self.off(0, p))
-            if op in ("Index", "IndexU", "IndexWrite"):
-                lo = 0 if op == "IndexU" else -p
-                if n - 1 - p < lo: continue
-                d = self.off(lo, n - 1 - p)
-                if op == "IndexWrite":
-                    self.ctr += 1
-                    v = wval(k["shape"], self.under[(p + d) * self.step], self.ctr)
-                    self.under[(p + d) * self.step] = v
-                    return ev(op, w + 1, k=d, v=v)
-                return ev(op, w + 1, k=d)
-            if op == "StdDistance":
-                if not k["ra"] and p > o: continue
-                return ev(op, w + 1)
-            if op == "Write":
-                if p >= n: continue
-                self.ctr += 1
-                v = wval(k["shape"], self.under[p * self.step], self.ctr)
-                self.under[p * self.step] = v
-                return ev(op, w + 1, v=v)
-        return ev("Eq", 1)
-
-    def run(self, nops):
-        for _ in range(nops):
-            self.lines.append(self.step_once())
-        return self.lines
-
-
-def walk_sizes(kind, quick):
-    k = KINDS[kind]
-    if k["maxn"] is not None:
-        return [0, 1, 2, 3, 5, 6]
-    if k["shape"] == "bit":
-        return [0, 1, 7, 8, 9, 16, 17, 63, 64, 65, 70]
-    return [0, 1, 2, 3, 5, 8, 13, 20]
-
-
-def random_scripts(seed, quick, skip):
-    scripts = {}
-    for kind in sorted(KINDS):
-        k = KINDS[kind]
-        if (kind, "*") in skip:
-            continue
-        rnd = random.Random("%d/%s" % (seed, kind))
-        nexec, nops = (10, 60) if quick else (60, 120)
-        lines = []
-        sizes = walk_sizes(kind, quick)
-        for i in range(nexec):
-            n = sizes[i % len(sizes)] if i < len(sizes) else rnd.choice(sizes)
-            step = rnd.choice(k["steps"]) if len(k["steps"]) == 1 else rnd.choice(list(k["steps"]) + [4, 5])
-            lines.extend(Walk(rnd, kind, n, step, skip).run(nops))
-        scripts[kind] = lines
-    return scripts
+        need = rows[class_key(KINDS[kind])]
+        for fact in sorted(need):
+            if need[fact] == "must" and not facts[kind][fact]:
+                findings.append((kind, fact, "iterator kind %s (%s) lacks the type-level fact `%s` that IterLawsTypes.tla requires of its "
+                                 "capability class %s (the expression does not exist or has another type)"
+                                 % (kind, ctype(kind), fact, {f: KINDS[kind][f] for f in FLAGS})))
+    nrows = sum(len(rows[class_key(KINDS[k])]) for k in facts)
+    adv = []
+    if tagres is not None:
+        for i, t in enumerate(tags):
+            if not tagres.get(i, False):
+                adv.append("common_iterator_tag<%s> is not %s" % (", ".join(t["types"]), TAG_CPP[t["common"]]))
+    return {"findings": findings, "rows_checked": nrows, "tag_rows": len(tags) if tagres is not None else 0, "tag_advisories": adv,
+            "conv": conv, "broken": sorted(broken)}
 
 
 # ------------------------------------------------------------- builds
@@ -321,51 +190,90 @@ def probe(ctx, macro):
     return rc == 0, o
 
 
-def build_drivers(ctx, groups):
-    """Probes first (in parallel), then one driver per group (in parallel)."""
-    with ThreadPoolExecutor(max_workers=3) as ex:
-        pr = list(ex.map(lambda m: probe(ctx, m), ["PROBE_ARRAY_ITERATORS", "PROBE_STEP_ARROW", "PROBE_VALUE_TRAITS"]))
-    caps = {"arrays": pr[0][0], "step_arrow": pr[1][0], "value_traits": pr[2][0]}
-    diag = {"arrays": pr[0][1], "step_arrow": pr[1][1], "value_traits": pr[2][1]}
-    jobs = []
-    for g in groups:
-        # -O0 -g0: the driver is ~40 generic lambdas x one session per kind; unoptimised and without
-        # debug info it compiles three times faster (ASan stays on), its run time does not matter
-        flags = ["-O0", "-g0", "-DC12_GROUP=%d" % g]
-        if g == 3 and not caps["step_arrow"]:
-            flags.append("-DC12_NO_STEP_ARROW")
-        if g in ARRAY_GROUPS and not caps["arrays"]:
-            flags.append("-DC12_NO_ARRAY_ITERATORS")
-        jobs.append({"src": SRC, "out": os.path.join(ctx.work, "iter_driver_%d" % g), "flags": flags})
-    core.build_many(ctx, jobs, max_workers=min(len(jobs), max(4, core.NCPU - 2)))
-    return caps, diag, {g: j["out"] for g, j in zip(groups, jobs)}
+def algo_probe(ctx, g):
+    """Which bodies SFINAE cannot see compile for the kinds of group g: one explicit instantiation per line of a
+    generated translation unit; the lines the compiler complains about are switched off and the rest is compiled
+    again (an error inside a helper shared by two algorithms is reported for the first one only)."""
+    kinds = sorted(k for k in KINDS if KINDS[k]["group"] == g)
+    cand = []
+    for kind in kinds:
+        k, t = KINDS[kind], ctype(kind)
+        it = "%s::iterator" % t
+        cand.append((kind, "Arrow", "template std::string c12::arrow_of<%s, %s>(const %s&);" % (t, it, it)))
+        if k["mut"] and (k["std"] or kind in VALUE_KINDS):
+            cand.append((kind, "StdFill", "template void c12::algo_fill<%s, %s>(%s, %s, const elem_t&);" % (t, it, it, it)))
+            cand.append((kind, "StdReverse", "template void c12::algo_reverse<%s, %s>(%s, %s);" % (t, it, it, it)))
+            if k["ra"]:
+                cand.append((kind, "StdSort", "template void c12::algo_sort<%s, %s>(%s, %s);" % (t, it, it, it)))
+    caps = {kind: CAP_ALL for kind in kinds}
+    off = []
+    for rnd in range(6):
+        path = os.path.join(ctx.work, "algo_probe_g%02d_%d.cpp" % (g, rnd))
+        with open(path, "w") as f:
+            f.write('#include "iter_algos.hpp"\n' + "\n".join(c[2] for c in cand) + "\n")
+        rc, o = core.sh(compile_cmd("gcc", ["-DC12_GROUP=%d" % g], path, syntax_only=True), timeout=600)
+        if rc == 0:
+            break
+        bad = set(int(m.group(1)) for m in re.finditer(r"%s:(\d+):\d+:" % re.escape(os.path.basename(path)), o))
+        hit = [cand[l - 2] for l in sorted(bad) if 2 <= l < len(cand) + 2]
+        if not hit:
+            # the prelude itself does not compile: the driver will not either; let the driver build report it
+            break
+        for kind, op, _ in hit:
+            caps[kind] &= ~CAP_BITS[op]
+            off.append((kind, op))
+        cand = [c for c in cand if c not in hit]
+    return caps, off, ""
 
 
-def apply_caps(caps):
-    """The kind table follows what the tree offers where the property does not demand it."""
-    if caps["value_traits"]:
-        for kind in ("value_map", "cvalue_map"):
-            KINDS[kind]["std"] = True
+def build_group(ctx, g, flavour="gcc", arrays_ok=True, caps=None):
+    """Probe + driver build of one group.  Never raises for a compiler error: returns ok=False and the output."""
+    off = []
+    if caps is None:
+        caps, off, pre = algo_probe(ctx, g)
+    flags = ["-DC12_GROUP=%d" % g] + ["-DCAPS_%s=%d" % (k, v) for k, v in sorted(caps.items())]
+    if g in ARRAY_GROUPS and not arrays_ok:
+        flags.append("-DC12_NO_ARRAY_ITERATORS")
+    out = os.path.join(ctx.work, "iter_driver_%s_%d" % (flavour, g))
+    rc, o = core.sh(compile_cmd(flavour, flags, SRC, out), timeout=900)
+    if rc != 0 and "error" not in o:
+        raise MachineryError("driver build (group %d, %s) failed without a compiler diagnostic:\n%s" % (g, flavour, o[-2000:]))
+    return {"group": g, "flavour": flavour, "ok": rc == 0, "drv": out, "caps": caps, "off": off, "out": o}
 
 
+def build_all(ctx, groups, clang_groups=()):
+    arrays_ok, arrays_diag = probe(ctx, "PROBE_ARRAY_ITERATORS")
+    with ThreadPoolExecutor(max_workers=max(2, core.NCPU)) as ex:
+        res = list(ex.map(lambda g: build_group(ctx, g, "gcc", arrays_ok), groups))
+        builds = {("gcc", r["group"]): r for r in res}
+        res2 = list(ex.map(lambda g: build_group(ctx, g, "clang", arrays_ok, caps=builds[("gcc", g)]["caps"]), clang_groups))
+        builds.update({("clang", r["group"]): r for r in res2})
+    return arrays_ok, arrays_diag, builds
+
+
+# ------------------------------------------------------------- running the harness
 def write_script(path, lines):
     with open(path, "w") as f:
         for l in lines:
             f.write(json.dumps(l, separators=(",", ":")) + "\n")
 
 
-def run_script(drv, script_path, trace_path):
-    """Run the driver over the script.  A crash (sanitizer report, signal) ends the driver with a final
-    Crash event: the call that crashed is attached to that event (so the replay re-executes it) and the
-    driver is restarted at the next Reset, so one crash does not hide the rest of the script."""
-    env = dict(os.environ); env.update(core.ASAN_ENV)
+def run_script(drv, script_path, trace_path, asan=True, max_restarts=MAX_RESTARTS):
+    """Run the driver over the script.  A crash (sanitizer report, signal, per-call CPU limit) ends the driver with a
+    final Crash event: the call that crashed is attached to that event (so the replay re-executes it) and the
+    driver is restarted at the next Reset, so one crash does not hide the rest of the script.  After max_restarts
+    restarts the rest of the script is dropped (TLC has plenty to reject by then).
+    Returns dict(crashes, dropped_executions)."""
+    env = dict(os.environ)
+    if asan:
+        env.update(core.ASAN_ENV)
     with open(script_path) as f:
         script = [l for l in f.read().splitlines() if l.strip()]
-    start = 0
+    start, crashes = 0, 0
     with open(trace_path, "w") as fout:
-        for _ in range(200):
+        while True:
             p = subprocess.run([drv], input=("\n".join(script[start:]) + "\n").encode(), stdout=subprocess.PIPE,
-                               stderr=subprocess.PIPE, env=env, timeout=1800)
+                               stderr=subprocess.PIPE, env=env, timeout=3600)
             if p.returncode == 3:
                 raise MachineryError("harness rejected script %s: %s" % (script_path, p.stderr.decode(errors="replace")[-500:]))
             out = [l for l in p.stdout.decode(errors="replace").splitlines() if l.strip()]
@@ -373,24 +281,32 @@ def run_script(drv, script_path, trace_path):
             done = len(out) - (1 if crashed else 0)        # events completed in this round
             if not crashed:
                 if done != len(script) - start:
-                    raise MachineryError("harness stopped after %d of %d events without a Crash event (rc=%s): %s"
-                                         % (done, len(script) - start, p.returncode, p.stderr.decode(errors="replace")[-500:]))
-                fout.write("".join(l + "\n" for l in out))
-                return
+                    # died without a word (e.g. killed, stack overflow inside a signal handler): treat like a crash
+                    out.append(json.dumps({"op": "Crash", "why": "driver ended with status %s without a Crash event" % p.returncode}))
+                else:
+                    fout.write("".join(l + "\n" for l in out))
+                    return {"crashes": crashes, "dropped_executions": 0}
             # a partially written line of the crashing call may precede the Crash event: keep complete events only
-            good = [l for l in out[:-1] if l.endswith("}}") or l.endswith("}")]
+            good = []
+            for l in out[:-1]:
+                if not (l.startswith("{") and l.endswith("}")):
+                    break
+                good.append(l)
             done = len(good)
             crash = json.loads(out[-1])
             if start + done < len(script):
                 crash["call"] = json.loads(script[start + done])
             fout.write("".join(l + "\n" for l in good) + json.dumps(crash, separators=(",", ":")) + "\n")
+            crashes += 1
             nxt = start + done + 1
             while nxt < len(script) and not script[nxt].startswith('{"op":"Reset"'):
                 nxt += 1
             if nxt >= len(script):
-                return
+                return {"crashes": crashes, "dropped_executions": 0}
+            if crashes > max_restarts:
+                dropped = sum(1 for l in script[nxt:] if l.startswith('{"op":"Reset"'))
+                return {"crashes": crashes, "dropped_executions": dropped}
             start = nxt
-    raise MachineryError("harness crashed more than 200 times on %s" % script_path)
 
 
 def chunk_by_reset(lines, max_events):
@@ -420,20 +336,183 @@ def classify(findings):
     return f
 
 
+# ------------------------------------------------------------- validation
+def read_lines(path):
+    with open(path) as f:
+        return [l.rstrip("\n") for l in f if l.strip()]
+
+
+def next_reset(lines, idx):
+    nxt = idx + 1
+    while nxt < len(lines) and not lines[nxt].lstrip().startswith('{"op":"Reset"'):
+        nxt += 1
+    return nxt
+
+
+def validate_file(ctx, item):
+    """Validate one trace file against L1.  No explain runs here; at most MAX_FILE_REJECTIONS rejections are
+    collected (validation restarts once after the first rejected execution)."""
+    rejs, matched, cur = [], 0, item["trace"]
+    unvalidated = 0
+    for attempt in range(MAX_FILE_REJECTIONS):
+        r = core.validate_trace(ctx, "IterLawsTrace", "IterLawsTrace.cfg", cur, explain=False, timeout=3600)
+        matched += r["matched"]
+        if r["accepted"]:
+            break
+        lines = read_lines(cur)
+        idx = r["fail_line"]
+        if idx >= len(lines):
+            raise MachineryError("trace validation of %s ended beyond the trace (see %s)" % (cur, r["tlc"]["outfile"]))
+        rejs.append({"item": item, "event": lines[idx], "execution": core.execution_of(lines, idx), "line": idx + 1, "file": os.path.basename(cur)})
+        nxt = next_reset(lines, idx)
+        if nxt >= len(lines):
+            break
+        if attempt + 1 >= MAX_FILE_REJECTIONS:
+            unvalidated = sum(1 for l in lines[nxt:] if l.lstrip().startswith('{"op":"Reset"'))
+            break
+        cur = "%s.rest%d" % (item["trace"], attempt + 1)
+        with open(cur, "w") as f:
+            f.write("\n".join(lines[nxt:]) + "\n")
+    return matched, rejs, unvalidated
+
+
+def calls_of(execution):
+    """The calls of a recorded execution (observations stripped; a Crash event stands for the call that crashed)."""
+    out = []
+    for l in execution:
+        d = json.loads(l) if isinstance(l, str) else dict(l)
+        if "_meta" in d:
+            continue
+        if d.get("op") == "Crash":
+            d = d.get("call")
+            if not d:
+                continue
+        d = {k: v for k, v in d.items() if k not in ("res", "st")}
+        out.append(d)
+    return out
+
+
+def reexecute(ctx, calls, build, tag):
+    """Single-execution re-run with the SAME driver build (group, compiler flavour, capability mask)."""
+    sp, tp = os.path.join(ctx.work, "confirm-%s.script" % tag), os.path.join(ctx.work, "confirm-%s.ndjson" % tag)
+    write_script(sp, calls)
+    run_script(build["drv"], sp, tp, asan=FLAVOURS[build["flavour"]]["asan"], max_restarts=0)
+    r = core.validate_trace(ctx, "IterLawsTrace", "IterLawsTrace.cfg", tp, name="confirm-" + tag, explain=False)
+    if not r["accepted"]:
+        lines = read_lines(tp)
+        if r["fail_line"] < len(lines) and lines[r["fail_line"]].startswith('{"op":"Crash"'):
+            r["expected"] = "(the call crashed, raised a sanitizer report or did not return within its CPU limit: there is no result to compare)"
+        else:
+            r["expected"] = core.explain_event(ctx, "IterLawsTrace", "IterLawsTrace.cfg", lines, r["fail_line"])
+    return r, tp
+
+
+def signature(rej):
+    try:
+        e = json.loads(rej["event"])
+        kind = json.loads(rej["execution"][0])["a"]["kind"]
+    except Exception:
+        return ("?", "?", "?")
+    if e.get("op") == "Crash":
+        c = e.get("call") or {}
+        return (kind, "Crash:" + str(c.get("op")), e.get("why"))
+    a = e.get("a", {})
+    return (kind, e.get("op"), a.get("how", a.get("o")))
+
+
+def report_rejections(ctx, rejs, findings, builds):
+    """Classify, confirm (re-execute + re-validate + explain) and report a bounded number of rejections."""
+    cl = classify(findings)
+    todo, seen = [], set()
+    for r in rejs:
+        try:
+            evj = json.loads(r["event"])
+        except Exception:
+            evj = {"op": "?"}
+        key = cl(evj, r["execution"])
+        if key:
+            if key not in ctx.known:
+                ctx.known.append(key)
+            continue
+        r["sig"] = signature(r)
+        todo.append(r)
+    # one rejection per distinct (kind, operation) first, then the rest
+    first, rest = [], []
+    for r in todo:
+        if r["sig"] in seen:
+            rest.append(r)
+        else:
+            seen.add(r["sig"])
+            first.append(r)
+    order = first + rest
+    reported = 0
+    for n, r in enumerate(order):
+        if reported >= MAX_REPORT:
+            break
+        item = r["item"]
+        build = builds[(item["flavour"], item["group"])]
+        calls = calls_of(r["execution"])
+        v, tp = reexecute(ctx, calls, build, "%02d" % n)
+        if v["accepted"]:
+            raise MachineryError("non-reproducible rejection: %s event %d (%s) was accepted when its execution was re-run alone (%s)"
+                                 % (r["file"], r["line"], r["event"][:300], tp))
+        lines = read_lines(tp)
+        evline = lines[v["fail_line"]] if v["fail_line"] < len(lines) else r["event"]
+        exp = v.get("expected", "?")
+        if "(no successor:" in exp and '{"op":"Crash"' not in evline:
+            # A call the spec does not ENABLE (as opposed to one whose result it rejects) means the script left the
+            # C++ preconditions: that is a bug of the generators, never a finding about xtl.
+            raise MachineryError("a generated script contains a call outside the spec's preconditions: %s ; %s" % (evline[:600], tp))
+        text = "trace rejected by IterLawsTrace at event %d of %s (kind %s, build %s): %s ; spec expected: %s" % (
+            r["line"], r["file"], r["sig"][0], item["flavour"], evline[:700], exp[:1200])
+        ctx.violation(text, replay_lines=[{"_meta": {"build": item["flavour"], "group": item["group"], "caps": build["caps"]}}] + calls)
+        reported += 1
+    if len(order) > reported:
+        ctx.notes["rejections_not_reported"] = len(order) - reported
+        ctx.log("%d further rejected executions are not reported individually (cap %d)" % (len(order) - reported, MAX_REPORT))
+    return reported
+
+
+# ------------------------------------------------------------- replay
 def replay(ctx, path):
-    """./verif replay C12 <file>: re-run the recorded calls on the current tree and validate."""
-    lines = [l for l in core.read_ndjson(path) if "_meta" not in l]
-    lines = [l.get("call") if l.get("op") == "Crash" else l for l in lines]     # re-execute the call that crashed
-    lines = [l for l in lines if l]
+    """./verif replay C12 <file>: re-run the recorded calls (or the recorded compile probe) on the current tree."""
+    raw = core.read_ndjson(path)
+    meta = {}
+    for l in raw:
+        if "_meta" in l:
+            meta.update(l["_meta"])
+    lines = calls_of(raw)
+    if lines and lines[0].get("op") == "CompileProbe":
+        bad = 0
+        for l in lines:
+            kind, fact = l["kind"], l["fact"]
+            if kind not in KINDS:
+                raise MachineryError("replay file names no known iterator kind")
+            rows, out = build_facts(ctx, only=KINDS[kind]["idx"], name="facts_replay")
+            if rows is None:
+                print("VIOLATION property=C12 replay=%s" % path)
+                print("  iterator kind %s still cannot be instantiated: %s" % (kind, first_errors(out, 3)))
+                bad += 1
+            elif fact != "*" and not rows[0]["facts"].get(fact, False):
+                print("VIOLATION property=C12 replay=%s" % path)
+                print("  iterator kind %s still lacks the fact `%s` (harness/iter/facts.cpp)" % (kind, fact))
+                bad += 1
+        if not bad:
+            print("replay accepted: the iterator type now has the recorded type-level fact(s)")
+        return 1 if bad else 0
     kind = next((l["a"]["kind"] for l in lines if l["op"] == "Reset"), None)
     if kind not in KINDS:
         raise MachineryError("replay file names no known iterator kind")
     g = KINDS[kind]["group"]
-    caps, diag, drv = build_drivers(ctx, [g])
-    sp, tp = os.path.join(ctx.work, "replay.script"), os.path.join(ctx.work, "replay.ndjson")
-    write_script(sp, lines)
-    run_script(drv[g], sp, tp)
-    r = core.validate_trace(ctx, "IterLawsTrace", "IterLawsTrace.cfg", tp)
+    flavour = meta.get("build", "gcc")
+    arrays_ok, _ = probe(ctx, "PROBE_ARRAY_ITERATORS")
+    # the same build flavour; the capability mask is probed again on the CURRENT tree (a body that compiles now is used)
+    b = build_group(ctx, g, "gcc", arrays_ok)
+    if flavour != "gcc" and b["ok"]:
+        b = build_group(ctx, g, flavour, arrays_ok, caps=b["caps"])
+    if not b["ok"]:
+        raise MachineryError("driver group %d (%s) does not build against this tree:\n%s" % (g, flavour, first_errors(b["out"])))
+    r, tp = reexecute(ctx, lines, b, "replay")
     if r["accepted"]:
         print("replay accepted: the recorded calls now conform to IterLaws.tla")
         return 0
@@ -442,63 +521,204 @@ def replay(ctx, path):
     return 1
 
 
+# ------------------------------------------------------------- L2 (advisory)
+def l2_stage(ctx, q):
+    for cfgname, what in (("IterLawsImpl_mc.cfg" if q else "IterLawsImpl_mc_thorough.cfg",
+                           "L2 (pair / bitset / stepping / single representations) refines L1; representation invariants"),):
+        if not os.path.exists(os.path.join(core.SPECS, cfgname)):
+            continue
+        r = core.tlc_model_check(ctx, "IterLawsImplMC", cfgname, what, coverage=not q, workers=min(4, core.NCPU) if q else None)
+        if r["violated"]:
+            ctx.drift.append("IterLawsImpl.tla no longer refines IterLaws.tla (%s), see %s" % (r["violated"], r["outfile"]))
+            ctx.notes["l2_refinement"] = "failed"
+        else:
+            ctx.notes["l2_refinement"] = "holds"
+        if not q:
+            ctx.notes["l2_action_coverage"] = {k: v for k, v in r.get("coverage", {}).items() if k[0].isupper()}
+
+
+# ------------------------------------------------------------- self-test
+def selftest(ctx):
+    """./verif selftest C12: the machinery's own guarantees, on the clean tree.
+    1. restart logic: a script whose 2nd execution crashes (dereference of end(): outside the contract, used only here)
+       and whose 4th hangs (SelfTestSpin: the per-call CPU limit) loses no later execution; the Crash events carry
+       the call; TLC rejects exactly the two broken executions and accepts the others.
+    2. a corrupted field of a recorded trace is rejected at that line.
+    3. model-level mutations of IterLawsImpl.tla are found as refinement failures."""
+    bad = []
+    b = build_group(ctx, 1)
+    if not b["ok"]:
+        raise MachineryError("driver group 1 does not build:\n%s" % first_errors(b["out"]))
+    lines = []
+    for i in range(5):
+        lines.append(reset_event("optvec_it", 3, 1))
+        lines += [ev("PreInc", 1), ev("Deref", 1), ev("AddAssign", 1, k=2)]          # now at end()
+        if i == 1:
+            lines.append(ev("Deref", 1))                                             # heap overflow -> ASan -> Crash
+        if i == 3:
+            lines.append(ev("SelfTestSpin", 1))                                      # never returns -> watchdog -> Crash
+        lines += [ev("PreDec", 1), ev("Deref", 1)]
+    sp, tp = os.path.join(ctx.work, "selftest.script"), os.path.join(ctx.work, "selftest.ndjson")
+    write_script(sp, lines)
+    st = run_script(b["drv"], sp, tp)
+    tr = [json.loads(l) for l in read_lines(tp)]
+    resets = sum(1 for l in tr if l["op"] == "Reset")
+    crashes = [l for l in tr if l["op"] == "Crash"]
+    ok = resets == 5 and len(crashes) == 2 and st["crashes"] == 2 and st["dropped_executions"] == 0 and \
+        crashes[0].get("call", {}).get("op") == "Deref" and crashes[1].get("call", {}).get("op") == "SelfTestSpin" and \
+        crashes[1].get("why") == "timeout"
+    print("selftest C12: restart after crash/hang: %d executions in the trace, Crash events %s -> %s"
+          % (resets, [(c.get("why"), c.get("call", {}).get("op")) for c in crashes], "ok" if ok else "FAILED"))
+    if not ok:
+        bad.append("restart")
+    item = {"trace": tp, "group": 1, "flavour": "gcc"}
+    global MAX_FILE_REJECTIONS
+    keep, MAX_FILE_REJECTIONS = MAX_FILE_REJECTIONS, 5
+    try:
+        matched, rejs, unval = validate_file(ctx, item)
+    finally:
+        MAX_FILE_REJECTIONS = keep
+    accepted_events = len(tr) - 2 - 2 * 0
+    ok = len(rejs) == 2 and all(json.loads(r["event"])["op"] == "Crash" for r in rejs) and unval == 0 and matched == len(tr) - 2
+    print("selftest C12: TLC rejects exactly the 2 Crash events, validates the %d other events (%d matched) -> %s" % (accepted_events, matched, "ok" if ok else "FAILED"))
+    if not ok:
+        bad.append("validation-after-crash")
+    # capped restarts: every execution crashes
+    lines = []
+    for i in range(6):
+        lines += [reset_event("optvec_it", 2, 1), ev("AddAssign", 1, k=2), ev("Deref", 1), ev("Eq", 1)]
+    write_script(sp, lines)
+    st = run_script(b["drv"], sp, tp, max_restarts=2)
+    ok = st["crashes"] == 3 and st["dropped_executions"] == 3
+    print("selftest C12: restart cap (2): %s -> %s" % (st, "ok" if ok else "FAILED"))
+    if not ok:
+        bad.append("restart-cap")
+    # 2. corrupt one field
+    lines = [reset_event("optvec_it", 4, 1), ev("PreInc", 1), ev("Plus", 1, k=2), ev("PostInc", 2), ev("Diff", 1), ev("TraverseReverse", 1, how="stdrev")]
+    write_script(sp, lines)
+    run_script(b["drv"], sp, tp)
+    tl = read_lines(tp)
+    r0 = core.validate_trace(ctx, "IterLawsTrace", "IterLawsTrace.cfg", tp, explain=False)
+    d = json.loads(tl[4])
+    d["res"]["val"] = d["res"]["val"] + 1
+    tl[4] = json.dumps(d, separators=(",", ":"))
+    with open(tp, "w") as f:
+        f.write("\n".join(tl) + "\n")
+    r1 = core.validate_trace(ctx, "IterLawsTrace", "IterLawsTrace.cfg", tp, explain=False)
+    ok = r0["accepted"] and not r1["accepted"] and r1["fail_line"] == 4
+    print("selftest C12: corrupted result of event 5 (Diff) rejected at event %s -> %s" % (r1.get("fail_line", -1) + 1, "ok" if ok else "FAILED"))
+    if not ok:
+        bad.append("corrupt")
+    # 3. L2 mutants
+    #    (IterLawsImpl_mut_*.cfg must fail; IterLawsImpl_eqv_*.cfg are mutants that are EQUIVALENT under the lockstep
+    #    invariant - `<` of a pair iterator with || instead of && - and must keep passing)
+    for cfgname in sorted(f for f in os.listdir(core.SPECS) if f.startswith(("IterLawsImpl_mut", "IterLawsImpl_eqv")) and f.endswith(".cfg")):
+        r = core.tlc(ctx, "IterLawsImplMC", cfgname, workers=min(4, core.NCPU), timeout=600)
+        want = cfgname.startswith("IterLawsImpl_mut")
+        ok = bool(r["violated"]) == want
+        print("selftest C12: %s: %s -> %s" % (cfgname, r["violated"] or "no error found",
+                                              ("ok (failure found)" if want else "ok (equivalent mutant)") if ok else "UNEXPECTED"))
+        if not ok:
+            bad.append(cfgname)
+    print("selftest C12: %s" % ("all ok" if not bad else "FAILED: " + ", ".join(bad)))
+    return 1 if bad else 0
+
+
+# ------------------------------------------------------------- the check
 def run(ctx):
     q = ctx.quick
     findings = core.load_findings("C12")
     rnd = random.Random(ctx.seed)
+    clang_groups = [] if q else [g for g in GROUPS if g not in ARRAY_GROUPS]
 
-    # ---- build (background) while TLC works
-    pool = ThreadPoolExecutor(max_workers=1)
-    fut = pool.submit(build_drivers, ctx, GROUPS)
+    # ---- builds and type facts (background) while TLC works
+    pool = ThreadPoolExecutor(max_workers=2)
+    fut_types = pool.submit(types_stage, ctx)
+    fut_build = pool.submit(build_all, ctx, GROUPS, clang_groups)
 
     # ---- 1. L1 model checking: the law set as theorems of the spec
     r = core.tlc_model_check(ctx, "IterLawsMC", "IterLaws_mc.cfg" if q else "IterLaws_mc_thorough.cfg",
-                             "L1 laws (all positions/offsets), postfix-returns-old, observer purity, size_t overloads agree",
-                             coverage=not q, workers=4 if q else None)
+                             "L1 laws (all positions/offsets), postfix-returns-old, observer purity, size_t overloads agree, algorithms = laws composed",
+                             workers=min(4, core.NCPU) if q else None, timeout=1800)
     if r["violated"]:
         raise MachineryError("L1 spec IterLaws.tla violates its own theorem %s (oracle bug), see %s" % (r["violated"], r["outfile"]))
     if not q:
-        cov = {k: v for k, v in r.get("coverage", {}).items() if k[0].isupper()}
+        # all 40 capability classes with unconstrained write histories (the configuration above only expands states with
+        # the pristine storage); per-action coverage is taken here (SpecP's next-state relation is one conjunction for TLC)
+        r2 = core.tlc_model_check(ctx, "IterLawsMC", "IterLaws_mc_classes.cfg", "L1 laws, all 40 capability classes, unconstrained write histories (n<=3)",
+                                  coverage=True, timeout=1800)
+        if r2["violated"]:
+            raise MachineryError("L1 spec IterLaws.tla violates its own theorem %s (oracle bug), see %s" % (r2["violated"], r2["outfile"]))
+        cov = {k: v for k, v in r2.get("coverage", {}).items() if k[0].isupper()}
         ctx.notes["l1_action_coverage"] = cov
-        spec_actions = ["PreInc", "PostInc", "PreDec", "PostDec", "Deref", "Arrow", "Eq", "Ne", "Assign", "AddAssign", "SubAssign",
-                        "Plus", "PlusLeft", "Minus", "Index", "Diff", "Lt", "Le", "Gt", "Ge", "PlusU", "PlusLeftU", "MinusU", "IndexU",
-                        "StdAdvance", "StdDistance", "StdNext", "StdPrev", "Write", "IndexWrite", "TraverseForward", "TraverseReverse", "Seat"]
-        ctx.notes["vacuous_actions"] = sorted(a for a in spec_actions if cov.get(a, [0, 0])[1] == 0)
+        alias = {"StdFind": "StdFindJ", "StdCount": "StdCountJ", "StdLowerBound": "StdLowerBoundJ"}      # model-checking wrappers in Next
+        ctx.notes["vacuous_actions"] = sorted(a for a in ALL_ACTIONS if cov.get(alias.get(a, a), [0, 0])[1] == 0)
+    l2_stage(ctx, q)
 
-    # ---- 2. S->C enumeration
+    # ---- 2. S->C enumeration (the two maximal capability classes)
     r3 = core.tlc(ctx, "IterLawsMC", "IterLaws_s2c.cfg" if q else "IterLaws_s2c_thorough.cfg", name="s2c-enumerate",
-                  heap="6g", timeout=1200, workers=4 if q else None)
+                  heap="6g", timeout=1800, workers=min(4, core.NCPU) if q else None)
     if r3["violated"]:
         raise MachineryError("s2c enumeration failed: %s" % r3["outfile"])
     edges = emitted(r3["out"])
     r3["out"] = ""
     if not edges:
         raise MachineryError("s2c enumeration emitted no transitions: %s" % r3["outfile"])
+    enumerated_ops = set(e["l"]["op"] for e in edges)
+    missing_ops = [a for a in ALL_ACTIONS if a != "Seat" and a not in enumerated_ops]
+    if missing_ops:
+        raise MachineryError("s2c enumeration never takes %s" % missing_ops)
 
-    caps, diag, drivers = fut.result()
+    # ---- stage 0 results: type facts
+    types = fut_types.result()
+    ctx.cov["evaluations"] += types["rows_checked"] + types["tag_rows"]
+    ctx.log("type facts: %d (kind, fact) rows of IterLawsTypes.tla observed on the real iterator types, %d missing; "
+            "%d common_iterator_tag rows, %d advisory" % (types["rows_checked"], len(types["findings"]), types["tag_rows"], len(types["tag_advisories"])))
+    for kind, fact, text in types["findings"][:MAX_TYPE_REPORT]:
+        ctx.violation(text, replay_lines=[{"op": "CompileProbe", "kind": kind, "fact": fact}])
+    if len(types["findings"]) > MAX_TYPE_REPORT:
+        ctx.notes["type_findings_not_reported"] = ["%s:%s" % (k, f) for k, f, _ in types["findings"][MAX_TYPE_REPORT:]]
+    for t in types["tag_advisories"][:5]:
+        ctx.drift.append("(advisory, outside the C12 statement) " + t)
+    if types["conv"] is not None:
+        ctx.notes["iterator_to_const_iterator_convertible"] = types["conv"]
+
+    arrays_ok, arrays_diag, builds = fut_build.result()
     pool.shutdown()
-    apply_caps(caps)
+    caps = {"arrays": arrays_ok, "value_traits": KINDS["value_map"]["std"],
+            "default_constructible": sorted(k for k in KINDS if KINDS[k]["dc"]),
+            "bodies_not_compiling": sorted("%s:%s" % x for b in builds.values() if b["flavour"] == "gcc" for x in b["off"]
+                                           if needs(x[1], {}) <= flags_of(KINDS[x[0]]))}
     ctx.notes["tree_capabilities"] = caps
+    failed = {key: b for key, b in builds.items() if not b["ok"]}
+    for (flavour, g), b in sorted(failed.items()):
+        ctx.log("driver group %d (%s) does NOT build against this tree; its kinds are not exercised:\n%s" % (g, flavour, first_errors(b["out"], 4)))
+    ctx.notes["driver_groups_not_built"] = sorted("%s:%d" % k for k in failed)
+
     # Operators / kinds that do not even compile on this tree (body errors, invisible to SFINAE) would be
-    # hit by every script: the generators avoid them and ONE directed script per defect keeps each
-    # visible (the driver logs `unsupported`, which the spec rejects).
+    # hit by every script: the generators avoid them.  Where the property demands the operation ONE directed
+    # script per defect keeps it visible (the driver logs `unsupported`, which the spec rejects); mutating std
+    # algorithms over proxy references are not demanded and are only switched off.
     skip = set()
     directed = []
-    if not caps["step_arrow"]:
-        skip |= {("step_vec", "Arrow"), ("step_cvec", "Arrow")}
-        what = "xstepping_iterator<class-type iterator>::operator-> does not compile (proposed_fixes/C12-02)"
-        if STEP_ARROW_IS_VERDICT:
-            directed.append(("step_vec", [reset_event("step_vec", 2, 2), ev("Arrow", 1)]))
-        else:
-            ctx.notes["advisory"] = [what + "; Arrow not exercised for step_vec/step_cvec"]
-        ctx.log("tree: " + what)
-    if not caps["arrays"]:
+    for b in builds.values():
+        if b["flavour"] != "gcc":
+            continue
+        for kind, op in b["off"]:
+            skip.add((kind, op))
+            if op == "Arrow":
+                directed.append((kind, [reset_event(kind, 2, KINDS[kind]["steps"][-1]), ev("Arrow", 1)]))
+                ctx.log("tree: operator-> of %s does not compile" % kind)
+    if not arrays_ok:
         for kind in KINDS:
             if KINDS[kind]["group"] in ARRAY_GROUPS:
                 skip.add((kind, "*"))
         directed.append(("optarr_it", [reset_event("optarr_it", 2, 1)]))
         directed.append(("cplxarr_it", [reset_event("cplxarr_it", 2, 1)]))
         ctx.log("tree: begin()/end() of xoptional_array / xcomplex_array do not compile (proposed_fixes/C12-01)")
+    for kind in KINDS:
+        if ("gcc", KINDS[kind]["group"]) in failed or kind in types["broken"]:
+            skip.add((kind, "*"))
     for fnd in findings:
         for s in fnd.get("avoid", []):
             skip.add((s["kind"], s["op"]))
@@ -506,10 +726,12 @@ def run(ctx):
     # scripts are merged per driver group (a Reset names its kind) and cut into pieces: few, large
     # trace files keep the number of TLC start-ups small
     per_group = {g: [] for g in GROUPS}
-    s2c, taken = s2c_scripts(edges, rnd, skip, quick=q)
+    gen_stats = {}
+    s2c, taken = s2c_scripts(edges, rnd, skip, quick=q, stats=gen_stats)
     ctx.log("S->C: %d L1 transitions enumerated by TLC; %d (kind, transition) replays on %d iterator kinds" % (len(edges), taken, len(s2c)))
     ctx.notes["s2c_transitions_enumerated"] = len(edges)
     ctx.notes["s2c_transitions_replayed"] = taken
+    ctx.notes.update(gen_stats)
     ctx.notes["iterator_kinds"] = sorted(k for k in KINDS if (k, "*") not in skip)
     for kind in sorted(s2c):
         per_group[KINDS[kind]["group"]].extend(s2c[kind])
@@ -520,58 +742,119 @@ def run(ctx):
     for kind in sorted(rs):
         nwalk += sum(1 for l in rs[kind] if l["op"] == "Reset")
         per_group[KINDS[kind]["group"]].extend(rs[kind])
-    ctx.notes["c2s_random_walks"] = nwalk
 
-    scripts = []      # (name, group, lines)
+    scripts = []      # dict(name, group, flavour, lines)
     total = sum(len(v) for v in per_group.values())
-    piece = max(6000, total // core.NCPU)
+    piece = max(6000, min(150000, total // core.NCPU))
     for g in GROUPS:
+        if ("gcc", g) in failed:
+            continue
         for i, ch in enumerate(chunk_by_reset(per_group[g], piece)):
-            scripts.append(("g%02d-%02d" % (g, i), g, ch))
-
+            scripts.append({"name": "g%02d-%02d" % (g, i), "group": g, "flavour": "gcc", "lines": ch})
+    # thorough: the random walks (other seeds) on the clang++ -O2 build as well
+    if clang_groups:
+        rs2 = random_scripts(ctx.seed, q, skip, kinds=[k for k in KINDS if KINDS[k]["group"] in clang_groups], salt="/clang", nexec=30)
+        for g in clang_groups:
+            if ("clang", g) in failed or ("gcc", g) in failed:
+                continue
+            lines = [l for kind in sorted(rs2) if KINDS[kind]["group"] == g for l in rs2[kind]]
+            nwalk += sum(1 for l in lines if l["op"] == "Reset")
+            for i, ch in enumerate(chunk_by_reset(lines, piece)):
+                scripts.append({"name": "cl%02d-%02d" % (g, i), "group": g, "flavour": "clang", "lines": ch})
+    ctx.notes["c2s_random_walks"] = nwalk
     for kind, lines in directed:
-        scripts.append(("directed-" + kind, KINDS[kind]["group"], lines))
+        if ("gcc", KINDS[kind]["group"]) not in failed:
+            scripts.append({"name": "directed-" + kind, "group": KINDS[kind]["group"], "flavour": "gcc", "lines": lines})
     # ---- probes for open known findings
     for fnd in findings:
         if "probe" in fnd:
-            scripts.append(("probe-" + fnd["id"], KINDS[fnd["probe"]["kind"]]["group"], fnd["probe"]["script"]))
+            scripts.append({"name": "probe-" + fnd["id"], "group": KINDS[fnd["probe"]["kind"]]["group"], "flavour": "gcc", "lines": fnd["probe"]["script"]})
+
+    # configurations actually exercised (measured from the scripts)
+    empty, consts, ops_per = {}, {}, {}
+    for s in scripts:
+        kind = None
+        for l in s["lines"]:
+            if l["op"] == "Reset":
+                kind = l["a"]["kind"]
+                if l["a"]["n"] == 0:
+                    empty[kind] = empty.get(kind, 0) + 1
+                if l["a"].get("src"):
+                    consts[kind] = consts.get(kind, 0) + 1
+            else:
+                ops_per[l["op"]] = ops_per.get(l["op"], 0) + 1
+    ctx.notes["executions_on_empty_container"] = empty
+    ctx.notes["executions_from_const_container"] = consts
+    ctx.notes["calls_per_operation"] = ops_per
+    ctx.notes["operations_never_executed_on_the_code"] = sorted(a for a in ALL_ACTIONS if not ops_per.get(a))
+    noempty = [k for k in ctx.notes["iterator_kinds"] if not empty.get(k)]
+    noconst = [k for k in ctx.notes["iterator_kinds"] if len(KINDS[k]["srcs"]) > 1 and not consts.get(k)]
+    if noempty or noconst:
+        raise MachineryError("generator defect: no execution on an empty container for %s / from a const container for %s" % (noempty, noconst))
 
     # ---- run the harness
     tdir = ctx.sub("traces")
 
     def one(item):
-        name, g, lines = item
-        sp, tp = os.path.join(tdir, name + ".script"), os.path.join(tdir, name + ".ndjson")
-        write_script(sp, lines)
-        run_script(drivers[g], sp, tp)
-        return tp
+        sp, tp = os.path.join(tdir, item["name"] + ".script"), os.path.join(tdir, item["name"] + ".ndjson")
+        write_script(sp, item["lines"])
+        b = builds[(item["flavour"], item["group"])]
+        item["trace"] = tp
+        item["run"] = run_script(b["drv"], sp, tp, asan=FLAVOURS[item["flavour"]]["asan"])
+        return item
     with ThreadPoolExecutor(max_workers=max(2, core.NCPU // 2)) as ex:
-        traces = list(ex.map(one, scripts))
-    for name, g, lines in scripts:
-        ctx.cov["traces_validated_against_impl"] += sum(1 for l in lines if l["op"] == "Reset")
-    ctx.sample({"script": [json.dumps(x) for x in scripts[0][2][:10]]})
-    ctx.sample({"script": [json.dumps(x) for x in scripts[-1][2][:10]]})
+        scripts = list(ex.map(one, scripts))
+    crashes = sum(s["run"]["crashes"] for s in scripts)
+    dropped = sum(s["run"]["dropped_executions"] for s in scripts)
+    if crashes:
+        ctx.notes["driver_crashes"] = crashes
+        ctx.notes["executions_dropped_after_repeated_crashes"] = dropped
+        ctx.log("the driver crashed / hit the per-call CPU limit %d times; %d executions dropped after %d restarts of a script" % (crashes, dropped, MAX_RESTARTS))
+    for s in scripts:
+        ctx.cov["traces_validated_against_impl"] += sum(1 for l in s["lines"] if l["op"] == "Reset")
+    for s in scripts[:1] + scripts[-1:]:
+        ctx.sample({"script": [json.dumps(x) for x in s["lines"][:10]]})
 
-    # ---- validate every trace against L1
-    core.validate_traces(ctx, "IterLawsTrace", "IterLawsTrace.cfg", traces, classify=classify(findings),
-                         parallel=core.NCPU, max_restarts=2)
-    ctx.cov["evaluations"] = ctx.cov["events_validated"]
-    # A call the spec does not ENABLE (as opposed to one whose result it rejects) means the script left the
-    # C++ preconditions: that is a bug of the generators in this file, never a finding about xtl.
-    for path, text in ctx.violations:
-        if "(no successor:" in text and '{"op":"Crash"' not in text:
-            raise MachineryError("a generated script contains a call outside the spec's preconditions: %s" % text[:600])
-    ctx.log("validated %d events in %d traces (%d executions)" % (ctx.cov["events_validated"], len(traces), ctx.cov["traces_validated_against_impl"]))
+    # ---- validate every trace against L1 (own loop: bounded work however many rejections there are)
+    with ThreadPoolExecutor(max_workers=core.NCPU) as ex:
+        results = list(ex.map(lambda s: validate_file(ctx, s), scripts))
+    rejs, unval = [], 0
+    for matched, rj, uv in results:
+        ctx.cov["events_validated"] += matched
+        rejs += rj
+        unval += uv
+    if unval:
+        ctx.notes["executions_not_validated_after_second_rejection"] = unval
+    ctx.cov["evaluations"] += ctx.cov["events_validated"]
+    if rejs:
+        ctx.log("%d rejected executions in %d trace files; confirming and explaining up to %d" % (len(rejs), len(set(r["item"]["name"] for r in rejs)), MAX_REPORT))
+        report_rejections(ctx, rejs, findings, builds)
+    ctx.log("validated %d events in %d traces (%d executions)" % (ctx.cov["events_validated"], len(scripts), ctx.cov["traces_validated_against_impl"]))
+
+    if failed and not ctx.violations:
+        (flavour, g), b = sorted(failed.items())[0]
+        raise MachineryError("driver group %d (%s) does not build against this tree and nothing else was rejected:\n%s"
+                             % (g, flavour, b["out"][-6000:]))
 
     return core.finish(
         ctx, "model_checking",
-        rule="TLC: IterLaws.tla laws exhaustive for n<=%d, strides %s, all position pairs/offsets, 12 capability classes; every L1 "
-             "transition for n<=%d (strides 1..3 for xstepping_iterator) replayed on each real iterator kind of its class (%d kinds%s); "
-             "seeded random walks per kind (sizes to 70 for bitset iterators, strides to 5). A case is one iterator expression with its "
-             "result and the projection (storage + both iterators via ==/++ count, it-begin(), end()-it, *it) compared by TLC."
-             % (3 if q else 5, "{1,2}" if q else "{1,2,3}", 4 if q else 6, len(s2c),
-                "; const/reverse/view twins only n<=3 in this tier" if q else ""),
+        rule="TLC: IterLaws.tla laws exhaustive for n<=%d, strides %s, all position pairs/offsets, %d capability classes; every L1 "
+             "transition for n<=%d (strides 1..3 for xstepping_iterator) replayed on each real iterator kind that has the operation (%d kinds%s); "
+             "seeded random walks per kind (sizes to 70 for bitset iterators, strides to 5). A case is one iterator expression (or std algorithm "
+             "over [a,b)) with its result and the projection (storage + both iterators via ==/++ count, it-begin(), end()-it, *it) compared by TLC; "
+             "plus %d type-level facts (IterLawsTypes.tla) observed on the iterator types."
+             % (3 if q else 6, "{1,2}" if q else "{1,2,3}", 6 if q else 40, 4 if q else 6, len(s2c),
+                "; const/reverse/view twins only n<=3 in this tier" if q else "", types["rows_checked"]),
         assumptions=["the harness projection reads the storage through the containers' own accessors (not through xtl iterators)",
                      "toy iterators in the harness define only the primitive operations; everything else comes from the xtl bases",
-                     "singular / default-constructed iterators and iterators of different containers are outside the property"],
+                     "iterators of different containers are outside the property; value-initialised iterators only compared with each other",
+                     "axes of the quantifier: iterator kinds (40, both tiers); container sizes incl. EMPTY (S->C n<=4 quick / n<=6 thorough, walks to 20 / 70 "
+                     "elements; executions_on_empty_container > 0 for every kind in both tiers); all positions a,b in [begin,end] (S->C, exhaustive); all "
+                     "offsets keeping the result in range (S->C, exhaustive, both signs); strides 1..3 exhaustively, 4 and 5 in the walks (both tiers); "
+                     "iterators obtained from mutable AND from const containers (both tiers); compilers/optimisation: g++ -O0 with ASan (both tiers), "
+                     "clang++ -O2 without ASan for the walks of the non-array kinds (thorough only)",
+                     "xstepping_iterator with a stride that does not divide the distance to the end, and comparisons of stepping iterators with "
+                     "different strides, are outside the property ('positive step' over a range of whole strides)",
+                     "std::fill / std::reverse / std::sort are exercised only for the kinds whose proxy references let the algorithm's body compile "
+                     "(tree_capabilities.bodies_not_compiling lists the others)"],
         exhaustive=False)
